@@ -205,7 +205,8 @@ class ObjectSpec:
                     F = self.fold_fn(ins, arr.t.sort())
                     A = self.allvalid_fn(ins, arr.t.sort())
                     n = z3.Length(arr.t)
-                    emit(F(arr.t, n, st["mode"]), present)
+                    fmode = z3.BoolVal(False) if tref.kind in ("int", "enum", "bool") else st["mode"]
+                    emit(F(arr.t, n, fmode), present)
                     conds = [A(arr.t, n)]
                     if ins.length is not None:
                         if ins.length.isdigit():
